@@ -303,6 +303,15 @@ def mangle_rules(facts, rep):
     recv = norm(ex.operand(comps[0][1]["args"][0], (comps[0][0], None)))
     rep_calls = [x for x in walk(recv) if x[0] == "call" and x[1].endswith("str>::replace")]
     good = len(rep_calls) == 1
+    # the normalisation is unconditional: what is walked IS the replaced string (behind Path::new / deref / as_ref), not "the replaced
+    # string or, on some fast path, the name as it came" -- a name that mixes both separators takes the fast path with its `\` intact
+    top = recv
+    while top[0] == "call" and len(top[2]) >= 1 and re.search(r"Path::new$|Deref::deref$|AsRef<.*>::as_ref$|AsRef::as_ref$|String::as_str$|Borrow::borrow$", top[1]):
+        top = top[2][0]
+    while top[0] in ("ref", "deref") and len(top) > 1 and isinstance(top[1], tuple):
+        top = top[1]
+    if good and not (top[0] == "call" and top[1].endswith("str>::replace")):
+        good = top is rep_calls[0] or top == rep_calls[0]
     if good:
         src = rep_calls[0][2][0]
         a = alts(src[2][0]) if src[0] == "call" and src[1].endswith("to_string") else alts(src)
